@@ -1,9 +1,12 @@
 package main
 
 import (
+	"fmt"
 	"math"
 	"math/rand"
+	"os"
 	"sort"
+	"strings"
 
 	"github.com/go-spatial/geom"
 	"github.com/pdok/texel/snap"
@@ -187,6 +190,56 @@ func chole(rng *rand.Rand, G float64, U int64) [][]ipt {
 	return rings
 }
 
+// dblc: a square shell, a hole in the shape of a thick letter C whose opening is narrower than a pixel, and a second, very thin C-shaped
+// hole hugging the first one on the outside at a fraction of a pixel: both sides of the thin one snap onto the outline of the thick one, so
+// that the same ring arrives several times, as an outer and as inner rings, each starting somewhere else (shell/hole cancellation)
+func dblc(rng *rand.Rand, G float64, U int64) [][]ipt {
+	if U < 8 || G < 20 {
+		return nil
+	}
+	e := U / 8 // one eighth of a pixel
+	o0 := (12 + 8*rng.Int63n(3)) * e
+	o1 := o0 + (80+8*rng.Int63n(3))*e
+	if o1+40*e >= int64(G)*U {
+		return nil
+	}
+	wall := 24 * e
+	i0, i1 := o0+wall, o1-wall
+	// the opening: inside one pixel column of the top wall
+	k := (i0/e+8)/8 + rng.Int63n(max64(1, (i1-i0)/e/8-2))
+	xa, xb := (8*k+2+rng.Int63n(2))*e, (8*k+5+rng.Int63n(2))*e
+	d1, d2 := (1+rng.Int63n(2))*e, (3+rng.Int63n(2))*e // the thin C lies between d1 and d2 outside the thick one (d2 < half a pixel + ...)
+	shell := []ipt{{o0 - 8*e, o1 + 32*e}, {o0 - 8*e, o0 - 8*e}, {o1 + 32*e, o0 - 8*e}, {o1 + 32*e, o1 + 32*e}}
+	thick := []ipt{{o0, o1}, {o0, o0}, {o1, o0}, {o1, o1}, {xb, o1}, {xb, i1}, {i1, i1}, {i1, i0}, {i0, i0}, {i0, i1}, {xa, i1}, {xa, o1}}
+	thin := []ipt{{xb, o1 + d1}, {xb, o1 + d2}, {o1 + d2, o1 + d2}, {o1 + d2, o0 - d2}, {o0 - d2, o0 - d2}, {o0 - d2, o1 + d2}, {xa, o1 + d2}, {xa, o1 + d1},
+		{o0 - d1, o1 + d1}, {o0 - d1, o0 - d1}, {o1 + d1, o0 - d1}, {o1 + d1, o1 + d1}}
+	rings := [][]ipt{shell, thick, thin}
+	// any of the four orientations
+	switch rng.Intn(4) {
+	case 1:
+		for _, r := range rings {
+			for i := range r {
+				r[i] = ipt{r[i].y, r[i].x}
+			}
+		}
+	case 2:
+		m := o0 + o1 + 24*e
+		for _, r := range rings {
+			for i := range r {
+				r[i] = ipt{r[i].x, m - r[i].y}
+			}
+		}
+	case 3:
+		m := o0 + o1 + 24*e
+		for _, r := range rings {
+			for i := range r {
+				r[i] = ipt{m - r[i].y, r[i].x}
+			}
+		}
+	}
+	return rings
+}
+
 // edgehole: a rectangle with a small hole within a pixel of one of its sides or corners (top/right ones included)
 func edgehole(rng *rand.Rand, G float64, U int64) [][]ipt {
 	shell := rectOnLattice(rng, G, U)
@@ -297,11 +350,14 @@ func genValid(rng *rand.Rand, family string, G float64, U int64, maxv int) (res 
 	var shell []ipt
 	cx, cy, rmax := 0.0, 0.0, 0.0
 	switch family {
-	case "chole", "edgehole":
+	case "chole", "edgehole", "dblc":
 		var rings [][]ipt
-		if family == "chole" {
+		switch family {
+		case "chole":
 			rings = chole(rng, G, U)
-		} else {
+		case "dblc":
+			rings = dblc(rng, G, U)
+		default:
 			rings = edgehole(rng, G, U)
 		}
 		if rings == nil {
@@ -369,6 +425,37 @@ func genValid(rng *rand.Rand, family string, G float64, U int64, maxv int) (res 
 	for i := range rings {
 		if rng.Intn(2) == 0 {
 			reverseRing(rings[i])
+		}
+	}
+	if !validPolygon(rings) {
+		return nil
+	}
+	return rings
+}
+
+// farPolygon: a triangle or convex quadrangle whose corners lie (i·2^20, j·2^20) pixels apart, each moved by up to 8 pixels, sometimes with a
+// small triangular hole next to a corner
+func farPolygon(rng *rand.Rand, U int64) [][]ipt {
+	K := int64(1<<20) * U
+	corners := [][2]int64{{0, 0}, {1, 0}, {1, 1}, {0, 1}}
+	if rng.Intn(3) == 0 {
+		corners = [][2]int64{{0, 0}, {2, 0}, {2, 1}, {0, 1}}
+	}
+	if rng.Intn(2) == 0 {
+		d := rng.Intn(4)
+		corners = append(corners[:d:d], corners[d+1:]...)
+	}
+	var shell []ipt
+	for _, c := range corners {
+		shell = append(shell, ipt{c[0]*K + 8*U + rng.Int63n(8*U), c[1]*K + 8*U + rng.Int63n(8*U)})
+	}
+	rings := [][]ipt{shell}
+	if rng.Intn(2) == 0 {
+		// a hole well inside, again a multiple of 2^20 pixels from nothing in particular
+		cx, cy := (shell[0].x+shell[1].x+shell[2].x)/3, (shell[0].y+shell[1].y+shell[2].y)/3
+		hole := []ipt{{cx, cy}, {cx + 3*U + rng.Int63n(4*U), cy + rng.Int63n(2*U)}, {cx + rng.Int63n(2*U), cy + 3*U + rng.Int63n(4*U)}}
+		if validPolygon([][]ipt{shell, hole}) {
+			rings = append(rings, hole)
 		}
 	}
 	if !validPolygon(rings) {
@@ -474,6 +561,7 @@ type window struct {
 	maxID  int     // deepest id used with this window
 	minID  int
 	weight int
+	far    bool // room for polygons 2^21 pixels wide to the north-east of the corner
 }
 
 func (w window) toPoly(rings [][]ipt, U int64, pixf float64) geom.Polygon {
@@ -504,16 +592,31 @@ func initWindows() {
 	wm := newReal("WebMercatorQuad", 18, false)
 	laea := newReal("EuropeanETRS89_LAEAQuad", 15, false)
 	realWindows = []window{
-		{gs: rd, baseX: 20000, baseY: 380000, G: 24, maxID: 14, minID: 12, weight: 2},
-		{gs: rd, baseX: 120000, baseY: 480000, G: 24, maxID: 10, minID: 8, weight: 2},
+		{gs: rd, baseX: 20000, baseY: 380000, G: 24, maxID: 14, minID: 12, weight: 2, far: true},
+		{gs: rd, baseX: 120000, baseY: 480000, G: 24, maxID: 10, minID: 8, weight: 2, far: true},
 		{gs: rd, baseX: 155000, baseY: 463000, G: 24, maxID: 5, minID: 3, weight: 1},
-		{gs: wm, baseX: 550000, baseY: 6800000, G: 24, maxID: 18, minID: 16, weight: 2},
+		{gs: wm, baseX: 550000, baseY: 6800000, G: 24, maxID: 18, minID: 16, weight: 2, far: true},
+		{gs: wm, baseX: -0.25, baseY: -0.2, G: 24, maxID: 18, minID: 16, weight: 1}, // astride the centre lines of the extent (root quadrants; the extent does not divide evenly here)
 		{gs: wm, baseX: 15550000, baseY: 4250000, G: 24, maxID: 20, minID: 19, weight: 1}, // levels 31 and 32, far from the origin
 		{gs: laea, baseX: 4000000, baseY: 3200000, G: 24, maxID: 14, minID: 12, weight: 2},
 	}
 }
 
+// VERIF_ONLY_WINDOW=<substring of "name/maxID"> and VERIF_ONLY_FAMILY=<family> narrow the generators for experiments and replays
+var onlyWindow, onlyFamily = os.Getenv("VERIF_ONLY_WINDOW"), os.Getenv("VERIF_ONLY_FAMILY")
+
 func pickWindow(rng *rand.Rand, ws []window) window {
+	if onlyWindow != "" {
+		var sel []window
+		for _, w := range ws {
+			if strings.Contains(fmt.Sprintf("%s/%d", w.gs.name, w.maxID), onlyWindow) {
+				sel = append(sel, w)
+			}
+		}
+		if len(sel) > 0 {
+			ws = sel
+		}
+	}
 	t := 0
 	for _, w := range ws {
 		t += w.weight
@@ -528,7 +631,7 @@ func pickWindow(rng *rand.Rand, ws []window) window {
 	return ws[0]
 }
 
-var validFamilies = []string{"star", "star", "holes", "holes", "comb", "sliver", "pinched", "rect", "chole", "edgehole"}
+var validFamilies = []string{"star", "star", "holes", "holes", "comb", "sliver", "pinched", "rect", "chole", "edgehole", "dblc"}
 
 // genCase: one snapping case. valid=true: a valid polygon; otherwise arbitrary vertex sequences.
 func genCase(rng *rand.Rand, w window, valid bool, maxv int) *snapCase {
@@ -538,13 +641,30 @@ func genCase(rng *rand.Rand, w window, valid bool, maxv int) *snapCase {
 	for try := 0; try < 50 && rings == nil; try++ {
 		if valid {
 			fam = validFamilies[rng.Intn(len(validFamilies))]
+			if onlyFamily != "" {
+				fam = onlyFamily
+			}
 			rings = genValid(rng, fam, w.G, U, maxv)
 		} else {
 			rings = genArbitrary(rng, w.G, U, maxv)
 		}
 	}
+	// far family (real grids, deep levels): a few vertices whose pixels are whole multiples of 2^20 apart (so that their keys agree in the low
+	// 40 bits): exercises everything keyed by pixel — caches, maps, the Z-order hierarchy — across distant parts of the tree
+	if valid && w.far && rng.Intn(10) == 0 {
+		if fr := farPolygon(rng, U); fr != nil {
+			rings, fam = fr, "far"
+		}
+	}
 	if rings == nil {
 		return nil
+	}
+	// a polygon may start each of its rings at any vertex
+	for i := range rings {
+		if n := len(rings[i]); n > 1 && rng.Intn(2) == 0 {
+			k := rng.Intn(n)
+			rings[i] = append(append([]ipt{}, rings[i][k:]...), rings[i][:k]...)
+		}
 	}
 	c := &snapCase{gs: w.gs, tag: fam, skipModel: !valid && w.gs.levelDiff != 4}
 	c.tmids = []int{w.maxID}
